@@ -1338,6 +1338,10 @@ PREFIX(_intersect_rect) (region_type_t *dest,
     region.extents.x2 = x + width;
     region.extents.y2 = y + height;
 
+    /* An empty rectangle is the empty region, not a one-box region */
+    if (!GOOD_RECT (&region.extents))
+	region.data = pixman_region_empty_data;
+
     return PREFIX(_intersect) (dest, source, &region);
 }
 
